@@ -1,0 +1,78 @@
+//go:build verif
+
+// Contracts checked by /verif/gvc (contract-based deductive verification).
+// This file contains comments only; it is compiled only under the "verif" build tag.
+
+package mem
+
+// C10 — the in-memory session queue over the trusted order-label model of container/list.
+//
+// elemOK(e): a list element holds a non-nil *queue.Elem whose message is a non-nil *queue.Publish (with a message)
+// or *queue.Pubrel. idOf(e): the packet identifier of the element's message.
+// qOK(q): representation invariant — list well formed, every member elemOK, the cursor is nil or a member,
+// never more than max elements.
+
+//@ spec func elemOf(e *list.Element) *queue.Elem = e.Value.(*queue.Elem)
+//@ spec func isPub(e *list.Element) bool = elemOf(e).MessageWithID.(type *queue.Publish)
+//@ spec func pubOf(e *list.Element) *queue.Publish = elemOf(e).MessageWithID.(*queue.Publish)
+//@ spec func relOf(e *list.Element) *queue.Pubrel = elemOf(e).MessageWithID.(*queue.Pubrel)
+//@ spec func elemOK(e *list.Element) bool = e.Value.(type *queue.Elem) && elemOf(e) != nil && ((isPub(e) && pubOf(e) != nil && pubOf(e).Message != nil) || (elemOf(e).MessageWithID.(type *queue.Pubrel) && relOf(e) != nil))
+//@ spec func idOf(e *list.Element) uint16 = isPub(e) ? pubOf(e).Message.PacketID : relOf(e).PacketID
+//@ spec func qOK(q *Queue) bool = q != nil && q.l != nil && listOK(q.l) && q.notifier != nil && q.cond != nil && q.cond.L != nil && (forall e *list.Element :: inList(q.l, e) ==> elemOK(e)) && (q.current == nil || inList(q.l, q.current)) && q.l.$len <= q.max
+
+// inflight(q, e): e lies before the read cursor (handed out, not yet acknowledged).
+//@ spec func inflight(q *Queue, e *list.Element) bool = inList(q.l, e) && (q.current == nil || e.$pos < q.current.$pos)
+
+// Remove(pid): removes the first in-flight element with that identifier (if any), nothing else; the queue and
+// in-flight gauges are told exactly what happened.
+//@ func (*Queue).Remove
+//@ props C10 C03
+//@ let N = q.notifier
+//@ requires [C10] qOK(q)
+//@ modifies ghost(q.l.$len), ghostall(list.Element.$owner), ghost(N.$queued), ghost(N.$inflight)
+//@ ensures [C10] result == nil && qOK(q)
+//@ ensures [C10] q.l.$len == old(q.l.$len) || q.l.$len == old(q.l.$len) - 1
+//@ ensures [C10] N.$queued - old(N.$queued) == q.l.$len - old(q.l.$len) && N.$inflight - old(N.$inflight) == q.l.$len - old(q.l.$len)
+//@ ensures [C10] forall e *list.Element :: old(inList(q.l, e)) && !inList(q.l, e) ==> old(inflight(q, e)) && old(idOf(e)) == pid
+//@ ensures [C10] forall e *list.Element :: inList(q.l, e) ==> old(inList(q.l, e))
+//@ ensures [C10] (exists e *list.Element :: old(inflight(q, e)) && old(idOf(e)) == pid) ==> q.l.$len == old(q.l.$len) - 1
+//@ loop 1 invariant qOK(q) && unread == q.current && (e == nil || inList(q.l, e)) && q.l.$len == old(q.l.$len) && N.$queued == old(N.$queued) && N.$inflight == old(N.$inflight)
+//@ loop 1 invariant forall f *list.Element :: inList(q.l, f) == old(inList(q.l, f))
+//@ loop 1 invariant e != nil && unread != nil ==> e.$pos <= unread.$pos
+//@ loop 1 invariant e != nil ==> (forall f *list.Element :: inflight(q, f) && f.$pos < e.$pos ==> idOf(f) != pid)
+//@ loop 1 invariant e == nil ==> (forall f *list.Element :: inflight(q, f) ==> idOf(f) != pid)
+
+// tailFresh(q): every element at or after the read cursor is a PUBLISH that has not been given a packet
+// identifier yet ("queued", not in flight). It holds whenever the in-flight entries have been drained.
+//@ spec func tailFresh(q *Queue) bool = forall e *list.Element :: inList(q.l, e) && q.current != nil && e.$pos >= q.current.$pos ==> isPub(e) && idOf(e) == 0
+//@ spec func isFront(l *list.List, c *list.Element) bool = forall e *list.Element :: inList(l, e) ==> c.$pos <= e.$pos
+
+//@ func (*Queue).Close
+//@ props C10
+//@ requires [C10] qOK(q)
+//@ modifies q.closed
+//@ ensures [C10] result == nil && q.closed && qOK(q)
+
+// Init: re-initialisation. With Clean Start the queue is emptied; without, its contents are kept and the cursor
+// goes back to the front so that the in-flight entries are replayed first.
+//@ func (*Queue).Init
+//@ props C10 C03
+//@ requires [C10] qOK(q) && opts != nil && opts.Notifier != nil
+//@ modifies q.closed, q.inflightDrained, q.l, q.readBytesLimit, q.version, q.current, q.notifier, ghostall(list.List.$len), ghostall(list.List.$next)
+//@ ensures [C10] result == nil && !q.closed && !q.inflightDrained && q.notifier == opts.Notifier && q.readBytesLimit == opts.ReadBytesLimit && q.version == opts.Version && qOK(q)
+//@ ensures [C10] opts.CleanStart ==> isfresh(q.l) && q.l.$len == 0 && q.current == nil
+//@ ensures [C10] !opts.CleanStart ==> q.l == old(q.l) && q.l.$len == old(q.l.$len) && (forall e *list.Element :: inList(q.l, e) == old(inList(q.l, e)))
+//@ ensures [C10] !opts.CleanStart ==> (q.current == nil) == (q.l.$len == 0) && (q.current != nil ==> isFront(q.l, q.current))
+
+// Replace: swaps the content of the first in-flight element that carries the same packet identifier
+// (PUBLISH -> PUBREL after PUBREC); queued elements and the list structure are untouched.
+//@ func (*Queue).Replace
+//@ props C10 C03
+//@ requires [C10] qOK(q) && elem != nil && ((elem.MessageWithID.(type *queue.Publish) && elem.MessageWithID.(*queue.Publish) != nil && elem.MessageWithID.(*queue.Publish).Message != nil) || (elem.MessageWithID.(type *queue.Pubrel) && elem.MessageWithID.(*queue.Pubrel) != nil))
+//@ modifies all(list.Element.Value)
+//@ ensures [C10] err == nil && qOK(q) && q.l.$len == old(q.l.$len) && q.current == old(q.current)
+//@ ensures [C10] forall e *list.Element :: e.Value != old(e.Value) ==> replaced && old(inflight(q, e)) && e.Value.(type *queue.Elem) && elemOf(e) == elem && old(idOf(e)) == old(idOfElem(elem))
+//@ ensures [C10] !replaced ==> (forall e *list.Element :: e.Value == old(e.Value))
+//@ spec func idOfElem(x *queue.Elem) uint16 = x.MessageWithID.(type *queue.Publish) ? x.MessageWithID.(*queue.Publish).Message.PacketID : x.MessageWithID.(*queue.Pubrel).PacketID
+//@ loop 1 invariant qOK(q) && unread == q.current && (e == nil || inList(q.l, e)) && (e != nil && unread != nil ==> e.$pos <= unread.$pos)
+//@ loop 1 invariant forall f *list.Element :: f.Value == old(f.Value)
